@@ -40,3 +40,41 @@ Definition read_value (s : list Z) : option Z :=
   | c :: r => if c =? 45 then option_map Z.opp (match_int r) else match_int s
   | [] => None
   end.
+
+(* ---- registers: arg_to_string prints "R" + str(index); utils.register_to_index reads the text of a REGISTER
+   token (r/R followed by digits, or one of the named registers, any case) ---- *)
+Definition print_register (n : Z) : list Z := 82 :: dec n.
+
+Definition lower (c : Z) : Z := if (65 <=? c) && (c <=? 90) then c + 32 else c.
+
+Fixpoint text_eqb (a b : list Z) : bool :=
+  match a, b with
+  | [], [] => true
+  | x :: a', y :: b' => (x =? y) && text_eqb a' b'
+  | _, _ => false
+  end.
+
+(* NAMED_REGISTERS: rt, fp, sp, pc_ret, fp_alt *)
+Definition named_registers : list (list Z * Z) :=
+  [([114; 116], 11); ([102; 112], 14); ([115; 112], 15); ([112; 99; 95; 114; 101; 116], 13);
+   ([102; 112; 95; 97; 108; 116], 12)].
+
+Fixpoint lookup_named (t : list (list Z * Z)) (s : list Z) : option Z :=
+  match t with
+  | [] => None
+  | (k, v) :: r => if text_eqb k s then Some v else lookup_named r s
+  end.
+
+(* None = HERAError "... is not a valid register" *)
+Definition register_to_index (s : list Z) : option Z :=
+  let l := map lower s in
+  match lookup_named named_registers l with
+  | Some v => Some v
+  | None => match l with
+            | 114 :: digits => match parse_base 10 digits with
+                               | Some v => if v <? 16 then Some v else None
+                               | None => None
+                               end
+            | _ => None
+            end
+  end.
